@@ -22,14 +22,25 @@ Definition baselinable (r : result) : option (svt * N) :=
   | _ => None
   end.
 
+Definition existing_or_empty (existing : option baseline) : baseline :=
+  match existing with Some b => b | None => empty end.
+
+(* new: start from the existing baseline; content / structure: keep the entries of the other
+   kind (repair of D10); all: start empty *)
 Definition update_start (mode : umode) (existing : option baseline) : baseline :=
   match mode with
-  | UNew => match existing with Some b => b | None => empty end
-  | _ => empty
+  | UNew => existing_or_empty existing
+  | UContent => filter_entries is_structure_entry (existing_or_empty existing)
+  | UStructure => filter_entries is_content_entry (existing_or_empty existing)
+  | UAll => empty
   end.
 
+(* a result that is a violation: Failed, or Grandfathered (Failed until the comparison ran;
+   repair of D9) *)
+Definition violating (r : result) : bool := is_failed r || is_grandfathered r.
+
 Definition update_step (mode : umode) (nb : baseline) (r : result) : baseline :=
-  if negb (is_failed r) then nb
+  if negb (violating r) then nb
   else
     let k := key_of r in
     let is_s := is_structure r in
@@ -83,7 +94,7 @@ Definition load_for_run (fl : flags) (disk : option baseline) : option (option b
 
 (* [results] are the pre-baseline results of the run (after --files restriction and after the
    fail-fast loop), [dirs] the directories whose counts the structure block looked at, [disk] the
-   baseline file before the run. All runs use the same file (the default path, named explicitly by
+   baseline file before the run (for [dirs] see Ratchet.evaluated_of). All runs use the same file (the default path, named explicitly by
    --baseline when f_baseline is set). *)
 Definition check_step (fl : flags) (results : list result) (dirs : list key)
            (disk : option baseline) : outcome :=
@@ -98,9 +109,11 @@ Definition check_step (fl : flags) (results : list result) (dirs : list key)
     let ro := handle_baseline_ratchet (f_ratchet_cli fl) (f_ratchet_cfg fl) results1
                                       (evaluated_of results1 dirs) loaded in
     let disk1 := if ro_saved ro then ro_baseline ro else disk in
-    (* 7.0.2 update, from the (possibly tightened) loaded baseline *)
+    (* 7.0.2 update, from the (possibly tightened) loaded baseline; when none was loaded the
+       file about to be replaced is read (fixes/D30-update-reads-target.patch) *)
+    let existing := match ro_baseline ro with Some b => Some b | None => disk1 end in
     let disk2 := match f_update fl with
-                 | Some mode => Some (update_baseline_from_results results1 mode (ro_baseline ro))
+                 | Some mode => Some (update_baseline_from_results results1 mode existing)
                  | None => disk1 end in
     (* 10. exit code *)
     mkOutcome results1
